@@ -39,7 +39,29 @@ type chainSearch struct {
 	minStake                       uint64
 }
 
+// attributionPart: committees larger than the BFS worlds' (9, 12 and, thorough, 17 validators: more than one bitmap byte).
+func attributionPart(r *mc.Run, cov map[string]any) {
+	sizes := []int{9, 12}
+	if !r.Quick() {
+		sizes = []int{9, 12, 16, 17}
+	}
+	total := 0
+	for _, n := range sizes {
+		vs, cases := bftworld.AttributionViols(n)
+		total += cases
+		for _, v := range vs {
+			r.OnViol(v)
+		}
+	}
+	cov["attribution_cases"] = total
+	cov["attribution_committee_sizes"] = sizes
+	fmt.Printf("attribution part: committees %v, %d signer sets (every one or two positions), each followed by its padded-bitmap replay\n", sizes, total)
+}
+
 func chainPart(r *mc.Run, cov map[string]any) {
+	if *partFlag != "chain" {
+		attributionPart(r, cov)
+	}
 	if *partFlag == "bft" {
 		return
 	}
